@@ -283,6 +283,16 @@ func buildOne(r *rng.R, slot int) *sharedObj {
 			"S1F1 W H->E <L[1] <U1 1> <U1 2>>\nS2F1 <B 256> .",
 		}
 		return &sharedObj{special: "refused-text", kind: "text", text: texts[r.Intn(len(texts))]}
+	case 24, 25, 26:
+		// round 10: texts that are refused because a FACTORY of package ast panics inside the parser (two ellipses in one
+		// list, bounds the wrong way round, a name used twice across lists): the parser's recover path runs while other
+		// goroutines parse good texts - present and hot in every round
+		texts := []string{
+			"S1F1 W H->E twice\n<L <A x> ... <U1 y> ...> .",
+			"S1F1 W H->E reversed\n<L <A[5..2] x> <U1 1>> .",
+			"S1F1 W H->E dup\n<L <L <U1 n>> <L <B n>>> .\nS1F3 W <L <U1 1> ...[0] <U1 2> ...[1]> .",
+		}
+		return &sharedObj{special: "refused-text", kind: "text", text: texts[slot-24]}
 	case 15:
 		return &sharedObj{special: "refused-calls", kind: "refused", item: ast.NewListNode("item", ast.NewUintNode(1, "b"))}
 	case 23:
@@ -318,7 +328,9 @@ func buildOne(r *rng.R, slot int) *sharedObj {
 		}
 		vals := make([]interface{}, n)
 		for i := range vals {
-			vals[i] = float64(i)*0.5 + float64(slot)
+			// round 10: double-precision values that single precision cannot hold exactly (the F4 array rounds every one
+			// of them while encoding and printing; nothing has asked this object for anything before the goroutines do)
+			vals[i] = float64(i)/3 + float64(slot) + 0.1
 		}
 		return &sharedObj{special: fmt.Sprintf("floats-f%d", size), kind: "item", item: ast.NewFloatNode(size, vals...), fill: map[string]interface{}{}, counts: map[string]interface{}{}}
 	case 16:
